@@ -103,6 +103,32 @@ func zipSpec(ct int, payload []byte) string {
 	return hx(append([]byte{}, z...))
 }
 
+// decoded messages kept by their receiver while the library goes on encoding and decoding other messages
+type c01Kept struct {
+	msg      *protocol.Message
+	was      string
+	abstract string
+	enc      string
+}
+
+var c01Held []c01Kept
+
+func c01Keep(o *common.Out, got *protocol.Message, abstract, enc string) {
+	for _, k := range c01Held {
+		if now := showMsg(k.msg); now != k.was {
+			o.Fail("held", "decoded-message-changed-later", fmt.Sprintf("a message decoded earlier (%s encoder) read {%s} then and reads {%s} after later messages were processed", k.enc, k.was, now), k.abstract)
+			c01Held = nil
+			break
+		}
+	}
+	if len(got.Payload) > 0 && len(got.Payload) < 1<<16 {
+		c01Held = append(c01Held, c01Kept{got, showMsg(got), abstract, enc})
+		if len(c01Held) > 6 {
+			c01Held = c01Held[1:]
+		}
+	}
+}
+
 func c01Enc(o *common.Out, id string, m *c01msg) {
 	abstract := m.abstract()
 	o.Begin(id, abstract)
@@ -180,6 +206,8 @@ func c01Enc(o *common.Out, id string, m *c01msg) {
 		if rd.Len() != len(trailer) {
 			o.Fail(id, "roundtrip-consumed", fmt.Sprintf("%s: reader left with %d bytes after the frame, want %d", enc.name, rd.Len(), len(trailer)), abstract)
 		}
+		// the decoded message is the receiver's: it is looked at again after later messages were encoded and decoded
+		c01Keep(o, got, abstract, enc.name)
 		want := m.build()
 		if !bytes.Equal(got.Header[:], want.Header[:]) || got.ServicePath != want.ServicePath ||
 			got.ServiceMethod != want.ServiceMethod || !bytes.Equal(got.Payload, want.Payload) ||
